@@ -128,9 +128,14 @@ def _check(prog, rep):
         okp = len(evs) == 1 and evs[0][0] == "Vec::push" and poly(evs[0][1]) == poly(lo) + poly(S) - poly(("int", 1))
         r1.check(okp, "record", "the recorded index is line_offset' - 1 (the last space of the line)", "push(line_offset + S - 1)",
                  "the recorded index is %s; expected line_offset + S - 1" % [(n, poly(a).show(D)) for n, a in evs], site=site)
+    ffb = [b for b, t, c in body.calls() if c.name == "crate::wrap_algorithms::wrap_first_fit"]
     for tr in loop_system(prog, body, outer, [off_pk], []):
         if tr.kind != "back":
             continue
+        r3.check(len(ffb) == 1 and ffb[0] in tr.path, "every-paragraph-arranged", "every paragraph is arranged with wrap_first_fit",
+                 "the call lies on every path through the paragraph loop",
+                 "a path through the paragraph loop skips the wrap_first_fit arrangement: such paragraphs are not wrapped like "
+                 "wrap() would wrap them", site=site_of_block(body, tr.path[-2]))
         nxt = tr.next[off_pk]
         r1.check(poly(nxt) == poly(off) + poly(("call", "str::len", (line,))) + poly(("int", 1)), "offset-advance",
                  "offset' = offset + len(line) + 1", "next(offset)", "the paragraph offset becomes %s; expected offset + line.len() + 1"
